@@ -25,10 +25,14 @@ impl Encode for HEnc {
         let buf = [val; MAXREC];
         if two && len >= 2 {
             if w.write_all(&buf[..1]).is_err() || w.write_all(&buf[1..len]).is_err() {
-                return Err(anyhow::Error::new(crate::util::TagErr(9)));
+                // a failing write is outside this (fault-free) harness; constructing an anyhow error here
+            // would put anyhow's error objects among the candidates of every io::Error drop
+            crate::sym::cut();
             }
         } else if w.write_all(&buf[..len]).is_err() {
-            return Err(anyhow::Error::new(crate::util::TagErr(9)));
+            // a failing write is outside this (fault-free) harness; constructing an anyhow error here
+            // would put anyhow's error objects among the candidates of every io::Error drop
+            crate::sym::cut();
         }
         Ok(())
     }
